@@ -450,6 +450,33 @@ pub fn record_eq_pair(c1j: &Value, c2j: &Value, how: &str, tr: &mut Tr) {
     let c2 = circ_from_json(c2j);
     tr.group();
     tr.emit(json!({"k": "pairc", "c1": c1j, "c2": c2j, "how": how}));
+    eq_answers(&c1, &c2, tr);
+}
+
+/// C12, global phases that are NOT multiples of pi/4 (the scalar of the residue is then held as floats): the second circuit is
+/// the first followed by  x q; rz(n/d) q; x q; rz(n/d) q  =  e^{i pi n/d} * identity, so by construction the pair is equal up
+/// to a global phase and NOT equal exactly (n/d is not an even integer); both argument orders. Header `pairp`.
+pub fn record_eq_generic(c1j: &Value, q: usize, n: i64, d: i64, base_first: bool, tr: &mut Tr) {
+    let mut c2j = c1j.clone();
+    {
+        let gs = c2j["gates"].as_array_mut().unwrap();
+        for t in ["NOT", "ZPhase", "NOT", "ZPhase"] {
+            gs.push(json!({"t": t, "qs": [q], "ph": if t == "ZPhase" { json!([n, d]) } else { json!([0, 1]) }, "vars": []}));
+        }
+    }
+    let c1 = circ_from_json(c1j);
+    let c2 = circ_from_json(&c2j);
+    tr.group();
+    tr.emit(json!({"k": "pairp", "c1": c1j, "q": q, "ph": [n, d], "base_first": base_first}));
+    if base_first {
+        eq_answers(&c1, &c2, tr);
+    } else {
+        eq_answers(&c2, &c1, tr);
+    }
+}
+
+fn eq_answers(c1: &Circuit, c2: &Circuit, tr: &mut Tr) {
+    let (c1, c2) = (c1.clone(), c2.clone());
     for phase in [true, false] {
         tr.emit(json!({"k": "eq", "fn": "circuit", "phase": phase, "ret": ans(guarded(|| equal_circuit_with_options(&c1, &c2, phase)))}));
     }
